@@ -242,7 +242,7 @@ def rfc2047_agree(value):
     return ref == mine, ref
 
 
-_PARAM = re.compile(r'([A-Za-z][A-Za-z0-9_-]*)="((?:[^"\\]|\\.)*)"')
+_PARAM = re.compile(r'([A-Za-z][A-Za-z0-9_-]*)=(?:"((?:[^"\\]|\\.)*)"|([!#$%&\'*+.^_`|~0-9A-Za-z-]+))')
 
 
 def parse_challenge(v):
@@ -259,7 +259,8 @@ def parse_challenge(v):
             return None
         if pm.group(1).lower() in params:
             return None
-        params[pm.group(1).lower()] = re.sub(r'\\(.)', r'\1', pm.group(2))
+        params[pm.group(1).lower()] = re.sub(r'\\(.)', r'\1', pm.group(2)) if pm.group(2) is not None \
+            else pm.group(3)
         pos = pm.end()
         if pos == len(rest):
             break
